@@ -1,10 +1,13 @@
 import Hive.Spec.WorkerPool
 import Hive.Conc.Sys
 /-!
-# Protocol model of `runtime/workerpool.WorkerPool` (workerpool.go, task.go) for C16
+# FROZEN protocol model of `runtime/workerpool.WorkerPool` AS IT WAS BEFORE THE REPAIRS a0dbad3 / 9b2668a / 1119368
 
-(The code as repaired by a0dbad3 / 9b2668a / 1119368; the model of the old code is frozen in
-`Hive/Model/WorkerPoolOld.lean`.)
+Kept only for the `C16_old_*_witness` theorems (`Hive/Props/C16Old.lean`): the schedules on which the old
+code lost a task, lost the shutdown signal, or deadlocked in `Start`.  The current code is modelled in
+`Hive/Model/WorkerPool.lean`.  Original header:
+
+# Protocol model of `runtime/workerpool.WorkerPool` (workerpool.go, task.go) for C16
 
 Shared state = the pool (life-cycle flag under its RWMutex, pending counter, queue with its mutex and
 `elementAdded` condition, dispatch channel, shutdown-signal channel) **and the pool's own goroutines**
@@ -19,29 +22,26 @@ task is not in the expected phase is disabled.
 
 Atomicity choices (each justified by a lock that is held in the code):
 * `IsRunning()` = RLock, read, RUnlock: one step, enabled iff no writer holds the pool mutex;
-  `increasePendingTasksIfRunning()` = RLock, read, `Counter.Increase` (value change, subscriber
-  callbacks, broadcast), RUnlock: one step with the same guard;
-* `Counter.Get` / `Counter.Decrease`: one step each; `Counter.WaitIsZero`: a guard `pending = 0`;
-* `Stack.Push` (lock, append, unlock, broadcast) and `Stack.SignalShutdown` (lock, broadcast, unlock):
-  one step each, enabled iff the stack mutex is free;
+* `Counter.Update` (value change, subscriber callbacks, broadcast) and `Counter.WaitIsZero`
+  (check-and-wait under the value mutex): one step / a guard `pending = 0`;
+* `Stack.Push` (lock, append, unlock, broadcast): one step, enabled iff the stack mutex is free;
   `PopOrWait` is split exactly where the code can be interleaved: lock+look, the condition callback
-  `hasWork` = `IsRunning()` (needs the pool read lock) then `pending > 0` — both *while holding the
-  stack mutex* —, the gap before `Wait`, the wait;
-* `Start`'s critical section `startIfStopped` (lock; running? live workers? else `isRunning = true;
-  make chan; go dispatcher; workerCount × (Add; go worker)`; unlock) contains no blocking operation and
-  is one step, enabled iff the pool mutex is free; `liveWorkers` and `ShutdownComplete` are one counter
-  in the model (`wg`; a worker's two deferred decrements are one step);
-* `Shutdown`'s critical section `stop` contains the (possibly blocking) sends of the shutdown signals
-  and is therefore modelled step by step; the signal to the queue is sent after the unlock.
+  (which needs the pool read lock) *while holding the stack mutex*, the gap before `Wait`, the wait;
+* `Stack.SignalShutdown` broadcasts **without** the stack mutex (as in the code);
+* `Start`'s critical section `isRunning = true; make chan; go dispatcher; workerCount × (Add; go worker)`
+  is one step (the pool write lock is held, the new goroutines can only be observed through
+  `ShutdownComplete`, whose waiters either passed before or block after).
 The queue and the dispatch channel are kept as *sets* (phases `queued`, `inchan`): the order in which
 tasks are popped/received is not part of the property, so any order is allowed.
 -/
-namespace Hive.WP
+namespace Hive.WPOld
 open Hive.Conc
+open Hive.WP
 
 structure Params where
   W : Nat                   -- workerCount
   cancel : Bool             -- optCancelPendingTasksOnShutdown
+  oldStart : Bool := false  -- `true`: `Start` as it was before the fix (no wait outside the lock)
 
 /-- A task's body: the tasks it submits (to the same pool) while it runs. -/
 inductive Body
@@ -52,7 +52,8 @@ def Body.kids : Body → List Body
 
 inductive Phase
   | fresh       -- Submit called, running-check not yet made
-  | counted     -- found running and counted (one step under the read lock), not yet pushed  [verif hook sits here]
+  | window      -- check said "running"; counter not yet increased   [verif hook sits here]
+  | counted     -- counter increased, not yet pushed
   | queued      -- in the queue
   | popped      -- taken by the dispatcher, not yet sent
   | inchan      -- in the dispatch channel
@@ -75,7 +76,7 @@ structure Task where
   kids : List Body
 
 inductive DPc
-  | none | loop | chk | pop | cond | cond2 | gap | waiting | send (t : Nat) | close
+  | none | loop | size | pop | cond | gap | waiting | send (t : Nat) | waitZero | close
 deriving DecidableEq, Repr
 
 inductive WPc
@@ -84,8 +85,7 @@ inductive WPc
   | drain               -- handleShutdown: receive until closed
   | run (t : Nat) (todo : List Body) (sub : Option Nat) (dr : Bool)
   | mark (t : Nat) (dr : Bool)
-  | signal (dr : Bool)  -- decreasePendingTasks reached zero: Queue.SignalShutdown is due
-  | exited              -- deferred liveWorkers.Add(-1) / ShutdownComplete.Done executed
+  | exited              -- deferred ShutdownComplete.Done executed
 
 def WPc.isExited : WPc → Bool
   | .exited => true
@@ -103,11 +103,15 @@ structure St where
   disp : DPc := .none
   workers : List WPc := []
   -- ghosts
-  due : Nat := 0              -- `Queue.SignalShutdown` calls that are owed (by a Shutdown, or by a decrease to zero)
+  inWindow : Nat := 0         -- Submit calls between a positive check and their push
+  raced : Bool := false       -- a Shutdown switched the pool off while a Submit was in that window
+  lost : Bool := false        -- SignalShutdown broadcast while the dispatcher was in the PopOrWait gap
   broken : Bool := false      -- Start spawned although an old dispatcher / channel content existed
   starts : Nat := 0
   sdcalls : Nat := 0
   sent : Nat := 0             -- shutdown signals sent by the current generation's Shutdown
+  bcastPending : Bool := false  -- a Shutdown switched the pool off and has not yet broadcast `elementAdded`
+  startRace : Bool := false   -- a Start took the lock of a stopped pool whose previous shutdown was not complete
   log : List Ev := []
   mon : Option Mon := some Mon.init
 
@@ -158,13 +162,13 @@ def submitStep (p : Params) (s : St) (t : Nat) : List (St × Bool) :=
     match x.phase with
     | .fresh =>
       if s.writer then []
-      else if s.running then
-        [(emit p (.up (s.pending + 1)) { setPhase s t .counted with pending := s.pending + 1 }, false)]
+      else if s.running then [({ setPhase s t .window with inWindow := s.inWindow + 1 }, false)]
       else [(setPhase s t .rejected, false)]
     | .rejected => [(emit p (.rej t) (setReturned s t), true)]
+    | .window => [(emit p (.up (s.pending + 1)) { setPhase s t .counted with pending := s.pending + 1 }, false)]
     | .counted =>
       if s.stackHeld then []
-      else [({ setPhase s t .queued with dwait := false }, false)]
+      else [({ setPhase s t .queued with dwait := false, inWindow := s.inWindow - 1 }, false)]
     | _ => [(emit p (.acc t) (setReturned s t), true)]
 
 /-- `PopOrWait` with the stack mutex in hand: pop some queued task, or go on to the condition callback. -/
@@ -175,29 +179,23 @@ def popOrCond (s : St) : List St :=
 def dispStep (p : Params) (s : St) : List St :=
   match s.disp with
   | .none => []
-  | .loop => if s.writer then [] else [{ s with disp := if s.running then .pop else .chk }]
-  | .chk => [{ s with disp := if 0 < s.pending then .pop else .close }]
+  | .loop => if s.writer then [] else [{ s with disp := if s.running then .pop else .size }]
+  | .size => if s.stackHeld then [] else [{ s with disp := if queuedIds s = [] then .waitZero else .pop }]
   | .pop => if s.stackHeld then [] else popOrCond s
-  | .cond => if s.writer then [] else [{ s with disp := if s.running then .gap else .cond2 }]
-  | .cond2 =>
-    if 0 < s.pending then [{ s with disp := .gap }]
+  | .cond =>
+    if s.writer then []
+    else if s.running then [{ s with disp := .gap }]
     else [{ s with stackHeld := false, disp := .loop }]
   | .gap => [{ s with stackHeld := false, dwait := true, disp := .waiting }]
   | .waiting => if s.dwait || s.stackHeld then [] else popOrCond s
   | .send t =>
     if (chanIds s).length < p.W ∧ s.closed = false ∧ phaseOf s t = some .popped
     then [{ setPhase s t .inchan with disp := .loop }] else []
+  | .waitZero => if s.pending = 0 then [{ s with disp := .close }] else []
   | .close => [{ s with closed := true, disp := .none }]
 
 def takeRun (p : Params) (s : St) (dr : Bool) (t : Nat) : St × WPc :=
   (emit p (.rs t) (setPhase s t .running), .run t (kidsOf s t) none dr)
-
-/-- `markDone`: close `doneChan`, `decreasePendingTasks`; a decrease to zero owes a signal to the queue. -/
-def markDone (p : Params) (s : St) (t : Nat) (ph : Phase) (dr : Bool) : St × WPc :=
-  if s.pending = 1 then
-    (emit p (.dn 0) { setPhase s t ph with pending := 0, due := s.due + 1 }, .signal dr)
-  else
-    (emit p (.dn (s.pending - 1)) { setPhase s t ph with pending := s.pending - 1 }, if dr then .drain else .sel)
 
 def wStep (p : Params) (s : St) : WPc → List (St × WPc)
   | .sel => if 0 < s.sig then [({ s with sig := s.sig - 1 }, .drain)] else [(s, .sel2)]
@@ -217,11 +215,11 @@ def wStep (p : Params) (s : St) : WPc → List (St × WPc)
       | [] => if phaseOf s t = some .running then [(emit p (.re t) (setPhase s t .ran), .mark t dr)] else []
   | .mark t dr =>
     match phaseOf s t with
-    | some .ran => [markDone p s t .done dr]
-    | some .cancelling => [markDone p s t .cancelled true]
+    | some .ran =>
+      [(emit p (.dn (s.pending - 1)) { setPhase s t .done with pending := s.pending - 1 }, if dr then .drain else .sel)]
+    | some .cancelling =>
+      [(emit p (.dn (s.pending - 1)) { setPhase s t .cancelled with pending := s.pending - 1 }, .drain)]
     | _ => []
-  | .signal dr =>
-    if s.stackHeld then [] else [({ s with dwait := false, due := s.due - 1 }, if dr then .drain else .sel)]
   | .exited => []
 
 /-- The pool's goroutines: the dispatcher or any worker takes a step. -/
@@ -237,8 +235,8 @@ inductive Op
 
 inductive CPc
   | idle | sub (t : Nat)
-  | sd1 | sdSend (j : Nat) | sdUnlockS | sdUnlockN | sdBcast
-  | stTry | stWait
+  | sd1 | sdSend (j : Nat) | sdBcast | sdUnlock
+  | st0 | stWait1 | stLock | stWait2 | stUnlock
   | wc | wz
 deriving DecidableEq, Repr
 
@@ -246,7 +244,7 @@ structure Client where
   pc : CPc
   script : List Op
 
-/-- `startIfStopped`'s spawn under the pool write lock. -/
+/-- `Start`'s spawn under the pool write lock. -/
 def spawn (p : Params) (s : St) : St :=
   { s with running := true, closed := false, disp := .loop, workers := List.replicate p.W .sel,
            starts := s.starts + 1, sent := 0,
@@ -259,33 +257,33 @@ def clientStep (p : Params) (s : St) (c : Client) : List (St × Client) :=
     | [] => []
     | .submit b :: rest => [((newTask p s b.kids).1, ⟨.sub (newTask p s b.kids).2, rest⟩)]
     | .shutdown :: rest => [(emit p .sdcall { s with sdcalls := s.sdcalls + 1 }, ⟨.sd1, rest⟩)]
-    | .start :: rest => [(emit p .startcall s, ⟨.stTry, rest⟩)]
+    | .start :: rest => [(emit p .startcall s, ⟨.st0, rest⟩)]
     | .waitComplete :: rest => [(s, ⟨.wc, rest⟩)]
     | .waitZero :: rest => [(s, ⟨.wz, rest⟩)]
   | .sub t => (submitStep p s t).map (fun r => (r.1, ⟨if r.2 then .idle else .sub t, c.script⟩))
-  -- Shutdown: `stop()` under the write lock ...
   | .sd1 =>
     if s.writer then []
     else if s.running then
-      [({ s with writer := true, running := false, due := s.due + 1 }, ⟨.sdSend 0, c.script⟩)]
-    else [({ s with writer := true }, ⟨.sdUnlockN, c.script⟩)]
+      [({ s with writer := true, running := false, raced := s.raced || decide (0 < s.inWindow),
+                 sent := 0, bcastPending := true }, ⟨.sdSend 0, c.script⟩)]
+    else [({ s with writer := true }, ⟨.sdUnlock, c.script⟩)]
   | .sdSend j =>
-    if j < p.W then
-      (if s.sig < p.W then [({ s with sig := s.sig + 1, sent := s.sent + 1 }, ⟨.sdSend (j + 1), c.script⟩)] else [])
-    else [(s, ⟨.sdUnlockS, c.script⟩)]
-  | .sdUnlockS => [({ s with writer := false }, ⟨.sdBcast, c.script⟩)]
-  | .sdUnlockN => [(emit p .sdret { s with writer := false }, ⟨.idle, c.script⟩)]
-  -- ... then `Queue.SignalShutdown()` (under the stack mutex) outside the pool lock
+    if j < p.W then (if s.sig < p.W then [({ s with sig := s.sig + 1, sent := s.sent + 1 }, ⟨.sdSend (j + 1), c.script⟩)] else [])
+    else [(s, ⟨.sdBcast, c.script⟩)]
   | .sdBcast =>
-    if s.stackHeld then []
-    else [(emit p .sdret { s with dwait := false, due := s.due - 1 }, ⟨.idle, c.script⟩)]
-  -- Start: `for !startIfStopped() { [hook] ShutdownComplete.Wait() }`
-  | .stTry =>
+    [({ s with dwait := false, lost := s.lost || s.disp == .gap, bcastPending := false }, ⟨.sdUnlock, c.script⟩)]
+  | .sdUnlock => [(emit p .sdret { s with writer := false }, ⟨.idle, c.script⟩)]
+  | .st0 =>
+    if p.oldStart then [(s, ⟨.stLock, c.script⟩)]
+    else if s.writer then []
+    else [(s, ⟨if s.running then .stLock else .stWait1, c.script⟩)]
+  | .stWait1 => if wg s = 0 then [(s, ⟨.stLock, c.script⟩)] else []
+  | .stLock =>
     if s.writer then []
-    else if s.running then [(emit p .startret s, ⟨.idle, c.script⟩)]
-    else if wg s = 0 then [(emit p .startret (spawn p s), ⟨.idle, c.script⟩)]
-    else [(s, ⟨.stWait, c.script⟩)]
-  | .stWait => if wg s = 0 then [(s, ⟨.stTry, c.script⟩)] else []
+    else [({ s with writer := true, startRace := s.startRace || (!s.running && decide (0 < wg s)) },
+           ⟨if s.running then .stUnlock else .stWait2, c.script⟩)]
+  | .stWait2 => if wg s = 0 then [(spawn p s, ⟨.stUnlock, c.script⟩)] else []
+  | .stUnlock => [(emit p .startret { s with writer := false }, ⟨.idle, c.script⟩)]
   | .wc => if wg s = 0 then [(emit p .complete s, ⟨.idle, c.script⟩)] else []
   | .wz => if s.pending = 0 then [(s, ⟨.idle, c.script⟩)] else []
 
@@ -308,10 +306,10 @@ def Thr.finished : Thr → Bool
 shutdown (legitimately so while the pool is running again). -/
 def Thr.atWaitComplete : Thr → Bool
   | .client ⟨.wc, _⟩ => true
-  | .client ⟨.stWait, _⟩ => true
+  | .client ⟨.stWait1, _⟩ => true
   | _ => false
 
 def mkClients (scripts : List (List Op)) : List Thr :=
   scripts.map (fun sc => .client ⟨.idle, sc⟩) ++ [.runner]
 
-end Hive.WP
+end Hive.WPOld
